@@ -90,6 +90,7 @@ CutOK(e) == e.deadlineHit /\ e.cutAfterMs >= tmo - ArmTol /\ e.cutAfterMs <= tmo
 TraceWorld ==
   /\ IsEvent("World")
   /\ LET e == Trace[l] IN
+       /\ e.libPanics = << >>          \* C04: building the reference image of a directory must not panic either
        /\ fs' = SetOf(e.nodes)
        /\ views' = ViewsOf(e.views)
        /\ aw' = e.aw
